@@ -26,6 +26,18 @@ CLAIMED['C10'] = {
           '(generator not yet under contract), pprint/eval of literals (axiom PP). Bounded: native oracle comparison on sampled inputs.',
   'design': '3 (C10)',
 }
+CLAIMED['C05'] = {
+  'text': 'Every encoder method of StoneToPythonPrimitiveSerializer / StoneSerializerBase (encode_sub, encode_list, encode_map, '
+          'encode_nullable, encode_primitive, encode_struct, encode_struct_tree, encode_union) is proved, for every well-formed '
+          'validator tree (including every generated struct / union class through the built-in table model) and every value in '
+          'the encoder domain, to return exactly Enc(T, v) -- the specification function written from docs/json_serializer.rst -- '
+          'or to raise ValidationError exactly when Enc is undefined; each method is checked against the contracts of the methods it calls.',
+  'note': 'Scope of this revision: new-style JSON, caller without extra permissions, no redaction, no alias validators (ctx_ok). '
+          'Trusted: PyVC translator; closed-world value universe; reflection tables of generated classes well formed (GEN-WF: built-in '
+          'model pyvc/genmodel.py, evaluated natively on a corpus of generated classes); strftime/base64 as uninterpreted functions; '
+          'lemma enc_val(Struct) is a dict used as axiom; termination. Bounded: native oracle comparison on generated values of the corpus.',
+  'design': '3 (C05)',
+}
 NOT_YET = {}
 NA = {
  'C09': 'property of emitted Python source when imported; no contract on an emitting function can express the semantics of its output text',
